@@ -170,6 +170,9 @@ pub fn run(rc: &mut RunCtx) {
     let maxn = if rc.miri() { 3 } else if rc.quick() { 4 } else { 5 };
     for n in 1..=maxn {
         for (si, start) in [1u64, 2, 1000, u64::MAX - 16].iter().enumerate() {
+            if rc.miri() && (si == 1 || si == 2) {
+                continue;
+            }
             let id = format!("exh:n={}:start={}", n, start);
             if !rc.mine(&id) {
                 continue;
@@ -179,6 +182,7 @@ pub fn run(rc: &mut RunCtx) {
             let mut count = 0u64;
             let mut r = Rng::for_case(seed, 14, (n * 10 + si) as u64);
             let mut sample = None;
+            let miri = rc.miri();
             enumerate(n, &mut |h| {
                 if res.is_violation() {
                     return;
@@ -189,7 +193,9 @@ pub fn run(rc: &mut RunCtx) {
                     sample = Some(format!("{:?}", hist));
                 }
                 run_history(*start, &hist, &[], true, &mut res);
-                if n <= 3 {
+                if miri && n == 3 {
+                    // (interpreter: the full consumption only)
+                } else if n <= 3 {
                     // every drop pattern over {full, 0, 1}
                     let k = hist.len();
                     let total = 3usize.pow(k as u32);
